@@ -14,7 +14,7 @@ import Driver.IterDrv
 open Driver
 
 def components : List (String × Component) :=
-  [("wal", WalDrv.component), ("sst", SstDrv.component), ("engine", EngineDrv.component), ("crash", CrashDrv.component), ("power", CrashDrv.powerComponent), ("walfault", WalFaultDrv.component), ("config", ConfigDrv.component), ("mem", MemDrv.component), ("memconc", MemDrv.concComponent), ("applier", ApplierDrv.component), ("compaction", CompactionDrv.component),
+  [("wal", WalDrv.component), ("walret", WalDrv.component), ("sst", SstDrv.component), ("engine", EngineDrv.component), ("crash", CrashDrv.component), ("power", CrashDrv.powerComponent), ("walfault", WalFaultDrv.component), ("config", ConfigDrv.component), ("mem", MemDrv.component), ("memconc", MemDrv.concComponent), ("applier", ApplierDrv.component), ("compaction", CompactionDrv.component),
    ("service", ServiceDrv.component), ("replica", ServiceDrv.component), ("iter", IterDrv.component)]
 
 def main (args : List String) : IO UInt32 := do
